@@ -150,9 +150,39 @@ class EntropyTap:
 
         os.urandom = mk("os.urandom", self._os)
         _random._urandom = mk("random._urandom", self._ru)
+        # the other standard doors to the same kernel source: os.getrandom, and every module-level alias of
+        # os.urandom made with `from os import urandom` before the tap was installed (secrets, uuid, ...)
+        self._gr = getattr(os, "getrandom", None)
+        if self._gr is not None:
+            real_gr = self._gr
+
+            def getrandom(size, flags=0):
+                b = tap.feed(size) if tap.feed else real_gr(size, flags)
+                tap.requests.append(("os.getrandom", size, bytes(b)))
+                return b
+            os.getrandom = getrandom
+        import sys
+        self._aliases = []
+        wrapped = os.urandom
+        for name, mod in list(sys.modules.items()):
+            if mod is None or mod is os or mod is _random or name.startswith("harness"):
+                continue
+            try:
+                items = list(vars(mod).items())
+            except Exception:
+                continue
+            for attr, val in items:
+                if val is self._os:
+                    self._aliases.append((mod, attr))
+                    setattr(mod, attr, wrapped)
         return self
 
     def __exit__(self, *a):
         os.urandom = self._os
         _random._urandom = self._ru
+        if self._gr is not None:
+            os.getrandom = self._gr
+        for mod, attr in self._aliases:
+            setattr(mod, attr, self._os)
+        self._aliases = []
         return False
